@@ -6,7 +6,16 @@ V = os.path.dirname(os.path.dirname(os.path.abspath(__file__)))
 STRENGTHENED = {"C02-a": "discount domain extended beyond 200 %", "C03-b": "caught by C05 (new monitor C05Funded)",
                 "C10-b": "fixtures with accrued funding indices", "C11-b": "known findings suppress only spec-conforming failures",
                 "C12-b": "monitor C12.PendingNonNegPartial on the partial state of failed operations + cross-collateral scenarios",
-                "C34-b": "drivers made panic-safe (engine rebuilds the map after a panic)"}
+                "C34-b": "drivers made panic-safe (engine rebuilds the map after a panic)",
+                "C36-s": "instruction shapes with a read-only signer (and all flag combinations) in both C36 bindings",
+                "C23-s": "monitors ExecOnce / TerminalKept / DirectTerminal; execution fee payable twice in the world",
+                "C22-s": "world R2 extended with price moves, liquidate, update_adl_state, auto_deleverage (cross-collateral cuts with failing pnl swap)",
+                "C25-s": "type-limit timestamp tier judged by TLC through limb arithmetic (BigNum.tla)",
+                "C29-s": "monitor AdjBand on every adjusted price",
+                "C15-s": "SDK pool view bound at the u128 limits",
+                "C40-a": "closed-market parameter combinations in the compared views",
+                "C40-b": "program vs SDK discount compared on non-round factors (also caught by C31)",
+                "C42-a": "precise transcription of the search: known findings suppress only design-conforming failures"}
 OTHER_PROP = {"C03-b": "C05", "C40-b": "C31"}
 for d in sorted(glob.glob(V + '/seeded/C*')):
     sid = os.path.basename(d)
